@@ -223,6 +223,21 @@ CHECKS.update({
              'A-PYPARSING (MatchFirst order semantics; tokenisation itself is '
              'checked only by the bounded family); pyvc, z3.',
         ref='DESIGN.md section 4 C18'),
+    'C19': dict(
+        text='split_path proved on the real body with the path given as its '
+             'list of symbolic segments (str.split replaced by its contract '
+             'on that representation): for 1..7 segments x minsegs 1..4 x '
+             'maxsegs {None,0,min-1..min+2} x rest_with_last and arbitrary '
+             'segment contents, the result equals the oracle written from '
+             'the property (ValueError otherwise, exactly maxsegs entries, '
+             'leading segments, None padding, remainder in the last entry, '
+             'single trailing slash tolerated). split_by_commas is a wrapper '
+             'around a pyparsing grammar: bounded stand-in only (inverse of '
+             'joining quoted items; 40 malformed patterns -> ValueError).',
+        note='A-STDLIB-SPLIT; segment count bounded by 7 in the proof (the '
+             'code inspects at most maxsegs+2 <= 8 split entries); '
+             'split_by_commas is NOT proved, only bounded; pyvc, z3.',
+        ref='DESIGN.md section 4 C19'),
     'C10': dict(
         text='(1) Regular-language lemmas (z3 RegLan, translated on every run '
              'from the real pattern strings in UNIT_SYSTEM_INFO via CPython\'s '
